@@ -272,7 +272,7 @@ def export_binvox(voxel, axis_order="xzy"):
         encoding = encoding.transpose((0, 2, 1))
     elif axis_order != "xyz":
         raise ValueError('Invalid axis_order: must be one of ("xyz", "xzy")')
-    rle_data = encoding.flat.run_length_data(dtype=np.uint8)
+    rle_data = np.asarray(encoding.flat.run_length_data(dtype=np.uint8), dtype=np.uint8)
     return binvox_bytes(rle_data, shape=voxel.shape, translate=translate, scale=scale)
 
 
